@@ -107,4 +107,129 @@ func TestConnectRefused(t *testing.T) {
 	}
 }
 
+// ConnectLoopCase: a blind (non-MITM) CONNECT whose Via does or does not name
+// this proxy instance. "A request whose Via already names this proxy instance
+// is never sent upstream and is answered 400": no connection to the target may
+// be opened for it.
+type ConnectLoopCase struct {
+	Via  []string `json:"via"` // Via lines, {self} = this instance's pseudonym
+	Self bool     `json:"self"`
+}
+
+func runConnectLoop(c ConnectLoopCase) kit.Verdict {
+	wait := 3 * kit.T()
+	incomplete := func(what string) kit.Verdict {
+		atomic.AddInt64(&wireIncomplete, 1)
+		kit.Inconclusive("connect-loop")
+		kit.Note("connect-loop", "a case could not be judged ("+what+"); counted inconclusive")
+		return nil
+	}
+	o, err := newOrigin(wait, []byte("HTTP/1.1 200 OK\r\nContent-Length: 0\r\n\r\n"))
+	if err != nil {
+		return incomplete("no port")
+	}
+	defer o.close()
+	p, err := startProxy("martian", o.ln.Addr().String(), nil, wait)
+	if err != nil {
+		return incomplete("no port")
+	}
+	defer p.close()
+	addr := p.ln.Addr().String()
+	if _, err := exchange(addr, []byte("GET http://probe.test/ HTTP/1.1\r\nHost: probe.test\r\nConnection: close\r\n\r\n"), wait); err != nil {
+		if isTimeout(err) {
+			return incomplete("probe wait expired")
+		}
+		return kit.Failf("C14/wire/probe/no-answer", "probe request through the proxy failed: %v", err)
+	}
+	got := o.received()
+	if len(got) != 1 {
+		return kit.Failf("C14/wire/probe/not-forwarded", "origin received %d requests for the probe", len(got))
+	}
+	_, ph := parseHead(got[0])
+	pv := ph["Via"]
+	if len(pv) != 1 || !strings.HasPrefix(pv[0], "1.1 martian-") {
+		return kit.Failf("C14/via/none/wrong-members", "probe reached the origin with Via lines %q", pv)
+	}
+	self := pv[0][4:]
+	before := o.accepted()
+
+	var sb strings.Builder
+	sb.WriteString("CONNECT example.com:443 HTTP/1.1\r\nHost: example.com:443\r\n")
+	var lines []string
+	for _, l := range c.Via {
+		l = strings.ReplaceAll(l, "{self}", self)
+		lines = append(lines, l)
+		fmt.Fprintf(&sb, "Via: %s\r\n", l)
+	}
+	sb.WriteString("\r\n")
+	head, err := exchange(addr, []byte(sb.String()), wait)
+	if err != nil {
+		if isTimeout(err) {
+			return incomplete("CONNECT wait expired")
+		}
+		return kit.Failf("C14/wire/connect/no-answer", "no response head for CONNECT: %v", err)
+	}
+	start, _ := parseHead(head)
+	status := statusOf(start)
+	var v kit.Verdict
+	if c.Self {
+		if n := o.accepted() - before; n != 0 {
+			v.Addf("C14/loop/connect-self-in-via/upstream-contacted", "CONNECT with Via lines %q naming this instance (%s) was answered %q, but %d connection(s) to the target were opened", lines, self, start, n)
+		}
+		if status != 400 {
+			v.Addf("C14/loop/connect-self-in-via/not-answered-400", "CONNECT with Via lines %q naming this instance (%s) was answered %q, want 400", lines, self, start)
+		}
+		return v
+	}
+	if status != 200 || !kit.Eventually(kit.T(), func() bool { return o.accepted() == before+1 }) {
+		v.Addf("C14/loop/connect-no-self-entry/false-loop", "CONNECT with Via lines %q (not naming %s) was answered %q and %d connection(s) to the target were opened; want 200 and one", lines, self, start, o.accepted()-before)
+	}
+	return v
+}
+
+var propConnectLoop = &kit.Prop[ConnectLoopCase]{
+	ID: "C14", Name: "connect-loop",
+	Rule: "raw client CONNECT (blind tunnel, no MITM) through martian.Proxy with the stack to a raw TCP target that counts accepted connections; Via of 0..2 lines of foreign members, in about half of the cases with this instance's entry (learnt by a probe) at a drawn position: with it the answer is 400 and no connection to the target is opened, without it 200 and exactly one; non-trivial = all",
+	Gen: func(t *rapid.T) ConnectLoopCase {
+		var c ConnectLoopCase
+		lines := make([][]string, rapid.IntRange(0, 2).Draw(t, "via_lines"))
+		for i := range lines {
+			for j, k := 0, rapid.IntRange(1, 2).Draw(t, "via_members"); j < k; j++ {
+				lines[i] = append(lines[i], viaEntry(t, rapid.SampledFrom(pseudonym).Draw(t, "via_who")))
+			}
+		}
+		if c.Self = rapid.Bool().Draw(t, "self"); c.Self {
+			if len(lines) == 0 {
+				lines = append(lines, nil)
+			}
+			li := rapid.IntRange(0, len(lines)-1).Draw(t, "self_line")
+			pos := rapid.IntRange(0, len(lines[li])).Draw(t, "self_pos")
+			l := append([]string{}, lines[li][:pos]...)
+			l = append(l, viaEntry(t, "{self}"))
+			lines[li] = append(l, lines[li][pos:]...)
+		}
+		for _, l := range lines {
+			c.Via = append(c.Via, strings.Join(l, ", "))
+		}
+		return c
+	},
+	Run: runConnectLoop, NonTrivial: func(ConnectLoopCase) bool { return true },
+	Classes: func(c ConnectLoopCase) []string {
+		if c.Self {
+			return []string{"via-self"}
+		}
+		return []string{"no-self-entry"}
+	},
+	Journal: true,
+}
+
+func TestConnectLoop(t *testing.T) {
+	n := kit.N(16, 60)
+	before := atomic.LoadInt64(&wireIncomplete)
+	propConnectLoop.Check(t, n)
+	if inc := atomic.LoadInt64(&wireIncomplete) - before; inc*10 > int64(n) {
+		t.Fatalf("infrastructure: %d of %d CONNECT-loop cases could not be judged; inconclusive, not a violation", inc, n)
+	}
+}
+
 var _ = http.StatusOK
